@@ -636,6 +636,17 @@ fn bounds_case(case_seed: u64, c: &mut Collector) {
     } else {
         let k = rng.range(0, 4);
         let mut fs: Vec<String> = (0..k).map(|j| field(&mut rng, Some(names[j]), false, &mut expected, &mut forms)).collect();
+        // a flatten member is parsed (it receives the items no other field claims): its type's
+        // parameters need the conversion bound like any other parsed field's
+        if rng.chance(1, 4) {
+            let mut p = Planted::default();
+            let depth = rng.range(0, 2);
+            let t = ty(&mut rng, depth, &mut p);
+            expected.extend(p.ty.iter().filter(|n| declared.contains(*n)).cloned());
+            forms.extend(p.forms.iter().copied());
+            forms.insert("field-flatten");
+            fs.push(format!("#[darling(flatten)] rest: {t}"));
+        }
         if tr != Tr::Meta && rng.coin() {
             // a magic field never takes part in the bound, whatever its type says; for FromAttributes
             // (no element parts to pass on) `ident` is an ordinary, parsed field
